@@ -1,0 +1,71 @@
+//go:build verif
+
+// Contracts for package gateway, read by /verif/govc (comment-only file).
+// See /verif/DESIGN.md section 4 (steps, session invariant, ghost traces).
+
+package gateway
+
+// ---- ghost state of a session ----
+// Trace of MQTT packets handed to the broker connection, in order.
+//@ ghost handler1.mqttOutN int
+//@ ghost handler1.mqttOut map[int]iface
+// Trace of MQTT-SN packets handed to the client connection, in order.
+//@ ghost handler1.snOutN int
+//@ ghost handler1.snOut map[int]iface
+
+//@ spec state(h *handler1) uint32 = deref(h.state)
+
+// Session invariant (DESIGN 6.C): parts needed by the step contracts.
+//@ pred regTypes(h *handler1) = forall k iface :: k in h.registeredTopics ==> istype(k, uint16) && istype(smGet(h.registeredTopics, k), string)
+//@ pred hInv(h *handler1) = h.cfg != nil && h.state != nil && h.snConn != nil && h.mqttConn != nil &&
+//@      h.transactions != nil && storeInv(h.transactions) && h.topicID != nil && seqInv(h.topicID) && regTypes(h) &&
+//@      state(h) <= 3
+
+// ---- sending ----
+//@ func (*handler1).mqttSend
+//@   nopanic [C25]
+//@   requires [C25] conn: h.mqttConn != nil
+//@   requires [C25] pkt_nonnil: pkt != nil
+//@   assigns h.mqttOutN, h.mqttOut
+//@   at Write.1 before ghost h.mqttOut = upd(h.mqttOut, h.mqttOutN, pkt)
+//@   at Write.1 before ghost h.mqttOutN = h.mqttOutN + 1
+//@   ensures [C01] at_most_one: h.mqttOutN == old(h.mqttOutN) || h.mqttOutN == old(h.mqttOutN) + 1
+//@   ensures [C01] sent_on_success: result == nil ==> h.mqttOutN == old(h.mqttOutN) + 1
+//@   ensures [C01] what: h.mqttOutN == old(h.mqttOutN) + 1 ==> h.mqttOut[old(h.mqttOutN)] == pkt
+//@   ensures [C01] prefix: forall i int :: i != old(h.mqttOutN) ==> h.mqttOut[i] == old(h.mqttOut[i])
+
+// ---- client-initiated transactions ----
+//@ func newClientPublishQOS1Transaction
+//@   nopanic [C25]
+//@   requires [C25] cfg: h != nil && h.cfg != nil
+//@   ensures [C25] made: fresh(result) && result.handler == h && result.topicID == topicID &&
+//@      timedWF(result.TimedTransaction) && fresh(result.TimedTransaction) && !finished(result.TimedTransaction.TransactionBase)
+
+// ---- C01: client PUBLISH -> broker PUBLISH ----
+// What a client topic ID denotes at this moment (from the property statement):
+// registered in this session, predefined for this client, or the 2-byte short name.
+//@ spec denotesDefined(h *handler1, tit uint8, id uint16) bool = ite(tit == 0, box(uint16, id) in h.registeredTopics,
+//@      ite(tit == 1, nameDefined(h.predefinedTopics, h.clientID, id), tit == 2))
+//@ spec denotesName(h *handler1, tit uint8, id uint16, name string) bool = ite(tit == 0, smGet(h.registeredTopics, box(uint16, id)) == box(string, name),
+//@      ite(tit == 1, nameSpec(h.predefinedTopics, h.clientID, id) == name,
+//@          len(name) == 2 && name[0] == uint8(id >> 8) && name[1] == uint8(id)))
+
+//@ func (*handler1).handleClientPublish
+//@   nopanic [C25]
+//@   requires [C25] inv: hInv(h)
+//@   requires [C25] pkt: snPublish != nil
+//@   assigns h.mqttOutN, h.mqttOut, map(h.transactions.bypktID)
+//@   let n0 = old(h.mqttOutN)
+//@   let tit = snPublish.TopicIDType
+//@   let tid = snPublish.TopicID
+//@   let sentName = h.mqttOut[old(h.mqttOutN)].(*mqPkts.PublishPacket).TopicName
+//@   ensures [C01] at_most_one: h.mqttOutN == n0 || h.mqttOutN == n0 + 1
+//@   ensures [C01] one_when_accepted: result == nil ==> h.mqttOutN == n0 + 1
+//@   ensures [C01] never_undenoted: !old(denotesDefined(h, tit, tid)) ==> h.mqttOutN == n0
+//@   ensures [C01] is_publish: h.mqttOutN == n0 + 1 ==> istype(h.mqttOut[n0], *mqPkts.PublishPacket)
+//@   ensures [C01] payload: h.mqttOutN == n0 + 1 ==> sameSlice(h.mqttOut[n0].(*mqPkts.PublishPacket).Payload, snPublish.Data)
+//@   ensures [C01] flags: h.mqttOutN == n0 + 1 ==> h.mqttOut[n0].(*mqPkts.PublishPacket).Retain == snPublish.Retain &&
+//@      h.mqttOut[n0].(*mqPkts.PublishPacket).Dup == snPublish.dup
+//@   ensures [C01] qos: h.mqttOutN == n0 + 1 ==> h.mqttOut[n0].(*mqPkts.PublishPacket).Qos == ite(snPublish.QOS == 3, 0, snPublish.QOS)
+//@   ensures [C01] msgid: h.mqttOutN == n0 + 1 ==> h.mqttOut[n0].(*mqPkts.PublishPacket).MessageID == snPublish.messageID
+//@   ensures [C01] topic: h.mqttOutN == n0 + 1 ==> old(denotesName(h, tit, tid, sentName))
